@@ -290,6 +290,7 @@ structure CInv (ab rb rs lsh : Nat) (H : Int) (a : List Int) (K : Int) (q aLimb 
   pos : crossPos rb rs st + st.aTakeLeft = q
   val : K = valI rb st.res
           + 2 ^ crossPos rb rs st * (st.aNorm + 2 ^ st.aTakeLeft * crossTop ab lsh a aLimb st.aCarry)
+  rlt : top = false → st.resAccLeft < rb
 
 theorem mem_set_bound {l : List Int} {i : Nat} {x B : Int} (hl : ∀ d ∈ l, |d| ≤ B) (hx : |x| ≤ B) :
     ∀ d ∈ l.set i x, |d| ≤ B := by
@@ -334,7 +335,7 @@ theorem crossStep1_spec {bits ab rb rs lsh : Nat} {H K : Int} {a : List Int} {q 
   have hposeq : crossPos rb rs (crossStep1E rb st w) = crossPos rb rs st + w := by
     unfold crossPos crossStep1E; simp only; have := h.ral2; omega
   unfold crossStep1E at hposeq ⊢
-  refine ⟨⟨?_, hlim, ?_, ?_, ?_, h.nd, h.ns, h.rc0, ?_, h.ac, ?_, ?_, ?_, ?_, ?_⟩, ?_⟩
+  refine ⟨⟨?_, hlim, ?_, ?_, ?_, h.nd, h.ns, h.rc0, ?_, h.ac, ?_, ?_, ?_, ?_, ?_, ?_⟩, ?_⟩
   · simp [hlen]
   · simp only; have := h.ral2; omega
   · simp only; have := h.atl2; omega
@@ -372,6 +373,7 @@ theorem crossStep1_spec {bits ab rb rs lsh : Nat} {H K : Int} {a : List Int} {q 
     generalize bmod w st.aNorm = d at *
     generalize bcarry w st.aNorm = c at *
     rw [hx]; ring
+  · intro _; simp only; have := h.ral2; omega
   · simp only; omega
 
 /-- exit of the `'inner` loop towards the next limb of `a` (`break 'inner`) -/
@@ -391,12 +393,13 @@ structure CCont (ab rb rs lsh : Nat) (H : Int) (a : List Int) (K : Int) (q aLimb
   val : K = valI rb st.res + 2 ^ q * crossTop ab lsh a aLimb st.aCarry
 
 /-- exit by `break 'outer` with the result completely filled -/
-structure CFull (rb rs : Nat) (K : Int) (st : CrossSt) : Prop where
+structure CFull (rb rs : Nat) (K : Int) (q : Nat) (st : CrossSt) : Prop where
   len : st.res.length = rs
   lims : ∀ d ∈ st.res, |d| ≤ 2 ^ rb - 1
   dn : st.done = true
   ns : st.stuck = false
   val : ∃ Z : Int, K = valI rb st.res + 2 ^ (rb * rs) * Z
+  posq : rb * rs ≤ q
 
 /-- exit by the flush of the top of `a` (`a_limb == 0 && a_take_left == 0`) -/
 structure CFlush (rb rs : Nat) (H K : Int) (q : Nat) (st : CrossSt) : Prop where
@@ -410,6 +413,7 @@ structure CFlush (rb rs : Nat) (H K : Int) (q : Nat) (st : CrossSt) : Prop where
   posq : q ≤ rb * (rs - st.resLimb)
   rcb : |st.resCarry| ≤ H + 6
   val : K = valI rb st.res + 2 ^ (rb * (rs - st.resLimb)) * st.resCarry
+  posq2 : rb * (rs - st.resLimb) < q + rb
 
 theorem crossTop_add (ab lsh : Nat) (a : List Int) (j : Nat) (c x : Int) :
     crossTop ab lsh a j (c + x) = x + crossTop ab lsh a j c := by unfold crossTop; ring
@@ -426,7 +430,7 @@ theorem crossAfter_spec {bits ab rb rs lsh : Nat} {H K : Int} {a : List Int} {q 
       (crossAfter bits rb aLimb st).1.aTakeLeft = st.aTakeLeft) ∧
     ((crossAfter bits rb aLimb st).2 = true →
       (aLimb ≠ 0 ∧ CCont ab rb rs lsh H a K q aLimb (crossAfter bits rb aLimb st).1) ∨
-      CFull rb rs K (crossAfter bits rb aLimb st).1 ∨
+      CFull rb rs K q (crossAfter bits rb aLimb st).1 ∨
       (aLimb = 0 ∧ CFlush rb rs H K q (crossAfter bits rb aLimb st).1)) := by
   have hcnt : st.resAccLeft = 0 ∨ st.aTakeLeft = 0 := by simpa using h.cnt
   have hbits1 : 1 ≤ bits := by rcases hbits with h | h <;> omega
@@ -529,7 +533,7 @@ theorem crossAfter_spec {bits ab rb rs lsh : Nat} {H K : Int} {a : List Int} {q 
       have hwr : wrapN bits (bcarry rb x + c') = bcarry rb x + c' :=
         wrapN_eq_abs hbits1 (by linarith)
       simp only [h.rc0, hxe, hm, hw64, hwr]
-      refine ⟨by simp [hlen], ?_, hlim, rfl, h.ns, ?_, ?_, ?_, hsum, ?_⟩
+      refine ⟨by simp [hlen], ?_, hlim, rfl, h.ns, ?_, ?_, ?_, hsum, ?_, ?_⟩
       · apply mem_set_bound h.lims
         have := bmod_abs_le hrb1 x; linarith
       · intro i hi; simp only at hi ⊢
@@ -545,6 +549,12 @@ theorem crossAfter_spec {bits ab rb rs lsh : Nat} {H K : Int} {a : List Int} {q 
         generalize bmod rb x = x1 at *
         generalize bcarry rb x = rc at *
         rw [hxd]; ring
+      · simp only
+        have hp := h.pos; rw [hat] at hp
+        have hrl := h.rlt rfl
+        unfold crossPos at hp
+        have : rs - st.resLimb = (rs - 1 - st.resLimb) + 1 := by omega
+        rw [this, Nat.mul_add]; omega
     · rw [if_neg hc2]
       have hral0 : st.resAccLeft = 0 := by
         rcases hcnt with h0 | h0
@@ -555,7 +565,13 @@ theorem crossAfter_spec {bits ab rb rs lsh : Nat} {H K : Int} {a : List Int} {q 
       by_cases hc3 : st.resLimb = 0
       · -- result completely filled
         rw [if_pos hc3]
-        refine ⟨by simp, fun _ => Or.inr (Or.inl ⟨hlen, h.lims, rfl, h.ns, ?_⟩)⟩
+        have hcp : crossPos rb rs st = rb * rs := by
+          unfold crossPos; rw [hral0, hc3]
+          have h3 : rb * rs = rb * (rs - 1) + rb := by
+            conv_lhs => rw [show rs = (rs - 1) + 1 by omega]
+            rw [Nat.mul_add, Nat.mul_one]
+          simp only [Nat.sub_zero]; omega
+        refine ⟨by simp, fun _ => Or.inr (Or.inl ⟨hlen, h.lims, rfl, h.ns, ?_, by have := h.pos; omega⟩)⟩
         refine ⟨st.aNorm + 2 ^ st.aTakeLeft * crossTop ab lsh a aLimb st.aCarry, ?_⟩
         have hv := h.val
         have : crossPos rb rs st = rb * rs := by
@@ -591,7 +607,7 @@ theorem crossAfter_spec {bits ab rb rs lsh : Nat} {H K : Int} {a : List Int} {q 
             rw [hq] at this; exact this
         · simp only [hc4, if_false]
           refine ⟨fun _ => ⟨⟨hlen, by simp only; omega, by simp only; omega, h.atl2, ?_, h.nd, h.ns, h.rc0, h.an, h.ac,
-            ?_, ?_, h.lims, ?_, ?_⟩, trivial⟩, by simp⟩
+            ?_, ?_, h.lims, ?_, ?_, (by intro h'; cases h')⟩, trivial⟩, by simp⟩
           · simp only [if_true]; omega
           · simp only; rw [hcur2, hral0]; simp
           · intro i hi; simp only at hi ⊢; exact h.zer i (by omega)
